@@ -348,7 +348,22 @@ def worker(args):
                     check_pair(rec, lab, name, f, rule, s, ders, post, case)
                 if name.startswith("const:"):
                     rec.count("constants_finder_asked_directly")
-                    continue        # (rules 4-6 need the existence model of a whole hierarchy)
+                    # rule 6 ("every result is a typed Sid that matches the search") applies to a constants Finder asked directly as well
+                    got_c, exc_c = find_set(f, s)
+                    if exc_c is not None:
+                        rec.violation("finder_raised", dict(case, finder=name, search=s), repr(exc_c))
+                    elif got_c:
+                        from spil import Sid as _Sid
+                        for r_ in got_c[:6]:
+                            x_ = _Sid(r_)
+                            try:
+                                ok_ = bool(x_) and x_.match(s)
+                            except Exception:
+                                ok_ = True      # (match itself is C08's)
+                            if not ok_:
+                                rec.violation("result_does_not_match_search", dict(case, finder=name, rule="match", search=s, result=r_), r_)
+                                break
+                    continue        # (rules 4-5 need the existence model of a whole hierarchy)
                 check_filter_and_literal(rec, lab, name, f, s, case)
         if u == 0:
             rec.sample({"entities": ents[:5], "search": s, "derived": [(r, d[:3]) for r, d, _p in derive(lab, s)]})
